@@ -310,6 +310,11 @@ func (fr *Frame) applyContract(c *Contract, fn *ssa.Function, key string, args [
 		for i := 0; i < sig.Params().Len() && i < len(args); i++ {
 			names[sig.Params().At(i).Name()] = args[i]
 		}
+	} else if recvIfc != nil && fr.invokeMethod != nil {
+		sig = fr.invokeMethod.Type().(*types.Signature)
+		for i := 0; i < sig.Params().Len() && i < len(args); i++ {
+			names[sig.Params().At(i).Name()] = args[i]
+		}
 	}
 	for _, g := range c.Ghosts {
 		gt := fr.eng.parseType(g.Type)
@@ -526,6 +531,8 @@ func (fr *Frame) invoke(site ssa.Instruction, c *ssa.CallCommon, recv *Val, args
 				}
 			}
 		}
+		fr.invokeMethod = c.Method
+		defer func() { fr.invokeMethod = nil }()
 		return fr.applyContract(ct, nil, key, args, c.Signature().Results(), recv)
 	}
 	pure := fr.eng.pureIfaceMethods[key]
